@@ -404,7 +404,8 @@ class Ctx:
         if t.focus in ("C12", "C13", "C14", "C16", "C01", "C19"):
             self._binary(t, table, hf, objs, hist, o, exp, obs, rp2, sig)
         if t.focus in ("C05", "C16", "C01", "C14"):
-            key = hash(repr((table, obs[w]["cells"], obs[w]["n"], kind)))
+            # per observable state, and again after a clear / reload / adoption (the file or cached parts may lag behind the live object)
+            key = hash(repr((table, obs[w]["cells"], obs[w]["n"], kind, o[0] if o[0] in ("clear", "rt", "uni", "int") else "")))
             if key not in self.rt_seen:
                 self.rt_seen.add(key)
                 self._roundtrip(t, hf, f, obs[w], exp[w], rp2, sig)
